@@ -283,6 +283,33 @@ func init() {
 			limitShape{fmt.Sprintf("failing-nested-eexec-repeated-under-handler-binary-%t", bin), eexecShape(3, "errordict /invalidaccess { } put 3000 { currentfile eexec } repeat", bin), []string{"", "dictstackoverflow"}, false, ""},
 			limitShape{fmt.Sprintf("failing-nested-eexec-loop-under-handler-binary-%t", bin), eexecShape(3, "errordict /invalidaccess { } put { currentfile eexec } loop", bin), []string{"dictstackoverflow", "budget"}, false, ""})
 	}
+	// growth inside an encrypted section, and nesting that passes through one
+	// encrypted section per level
+	for _, bin := range []bool{false, true} {
+		limitShapes = append(limitShapes,
+			limitShape{fmt.Sprintf("loop-push-inside-eexec-binary-%t", bin), eexecShape(3, "{ 1 } loop", bin), []string{"stackoverflow"}, false, ""},
+			limitShape{fmt.Sprintf("for-push-inside-eexec-binary-%t", bin), eexecShape(3, "0 1 100000 { } for", bin), []string{"stackoverflow"}, false, ""},
+			limitShape{fmt.Sprintf("self-call-inside-eexec-binary-%t", bin), eexecShape(3, "/f { f 1 } def f", bin), []string{"execstackoverflow"}, false, ""})
+	}
+	{
+		src := "/a { currentfile eexec a 1 } def a\n"
+		for i := 0; i < 260; i++ {
+			sec := gen.WrapEexec(sim.ReplayTape([]uint32{7, 7, 7, 7}), nil, []byte("currentfile closefile\n"), nil, false)
+			src += string(sec[len("currentfile eexec")+1:]) + "\n"
+		}
+		limitShapes = append(limitShapes, limitShape{"self-call-through-one-eexec-section-per-level", src, []string{"execstackoverflow"}, false, ""})
+	}
+	// code inside the data blocks of a CMap is code like any other
+	for _, blk := range []string{"bfchar", "cidrange", "codespacerange", "notdefrange"} {
+		pre := "/CIDInit /ProcSet findresource begin 12 dict begin begincmap 1 begincodespacerange <00> <ff> endcodespacerange 1 begin" + blk + " "
+		if blk == "codespacerange" {
+			pre = "/CIDInit /ProcSet findresource begin 12 dict begin begincmap 1 begincodespacerange "
+		}
+		limitShapes = append(limitShapes,
+			limitShape{"spin-inside-open-" + blk + "-block", pre + "{ } loop", []string{"budget"}, false, ""},
+			limitShape{"push-inside-open-" + blk + "-block", pre + "{ 1 } loop", []string{"stackoverflow"}, false, ""},
+			limitShape{"ReadCMap-spin-inside-open-" + blk + "-block", pre + "{ } loop", []string{"budget"}, false, "ReadCMap"})
+	}
 	limitShapes = append(limitShapes,
 		limitShape{"failing-begin-repeated-under-handler", "errordict /typecheck { pop } put 600 { 5 begin } repeat", []string{"", "stackoverflow"}, false, ""},
 		limitShape{"failing-eexec-operand-repeated-under-handler", "errordict /typecheck { } put 600 { 5 eexec } repeat", []string{"", "stackoverflow"}, false, ""},
